@@ -134,6 +134,7 @@ func runC13(c *eng.Ctx) {
 	runC13CloseVsClose(c, next)
 	runC13RootScope(c, next)
 	runC13Waiters(c, next)
+	runJoin(c, "C13", next)
 	// (b) overlaps
 	reps := c.Pick(1, 6)
 	for _, sc := range overlapScenarios() {
